@@ -32,11 +32,23 @@ def depth_conformance(c, xml_texts):
             continue
         tr.append({"id": j["id"], "ev": [{"cb": e["cb"], "a": [_conv(x) for x in e["a"]], "f": e["f"], "t": e["t"], "fr": e["fr"], "f0": e.get("f0", 0), "t0": e.get("t0", 0),
                                            "fr0": e.get("fr0", 1), "threw": bool(e.get("threw"))} for e in r["events"]]})
-    path = os.path.join(c.run_dir, "depthtraces.ndjson")
-    vf.write_ndjson(path, tr)
-    tv = vf.run_tlc("DepthTrace", "DepthTrace.cfg", c.run_dir, env={"TRACES": path}, timeout=3000, xmx="16g", workers=1, keep_out=False)
-    c.add_tlc("DepthTrace", tv, "recorded callback traces vs BuilderDepth!Eff")
-    e = tv.emitted[0]
+    # the traces are validated in parallel chunks (one single-worker TLC each: the trace module is function-shaped)
+    import concurrent.futures
+    nchunk = min(8, max(1, len(tr) // 40))
+    chunks = [tr[k::nchunk] for k in range(nchunk)]
+
+    def one(k):
+        d = os.path.join(c.run_dir, "dt%d" % k)
+        os.makedirs(d, exist_ok=True)
+        path = os.path.join(d, "depthtraces.ndjson")
+        vf.write_ndjson(path, chunks[k])
+        return vf.run_tlc("DepthTrace", "DepthTrace.cfg", d, env={"TRACES": path}, timeout=3000, xmx="6g", workers=1, keep_out=False)
+    with concurrent.futures.ThreadPoolExecutor(max_workers=nchunk) as ex:
+        tvs = list(ex.map(one, range(nchunk)))
+    for tv in tvs:
+        c.add_tlc("DepthTrace", tv, "recorded callback traces vs BuilderDepth!Eff (one of %d chunks)" % nchunk)
+    e = {"traces": sum(tv.emitted[0]["traces"] for tv in tvs), "events": sum(tv.emitted[0]["events"] for tv in tvs),
+         "unknown": sorted({u for tv in tvs for u in tv.emitted[0]["unknown"]}), "bad": [b for tv in tvs for b in tv.emitted[0]["bad"]]}
     c.cov["depth_traces"] = e["traces"]
     c.cov["depth_events"] = e["events"]
     c.cov["depth_callbacks_without_entry"] = sorted(e["unknown"])
@@ -51,7 +63,9 @@ DECL_NAMES = {  # declaration line -> names it declares (PREAMBLE lines and DocG
     "int g1;": ["g1"], "clock g2;": ["g2"], "int g3 = N, g4;": ["g3", "g4"], "meta int g5;": ["g5"],
     "typedef struct { int u; int w; } rec_t;\nrec_t r0 = {1, 2};": ["rec_t", "r0"], "int sq(int v) { int t = v; t = t * v; return t; }": ["sq"],
     "before_update { i = 0 }": ["@before_update"], "after_update { j = 1 }": ["@after_update"], "chan priority c < default;": ["@chan_priorities"],
-    "const int K2[2] = {1, 2};": ["K2"], "void lp() { for (k : int[0,1]) { i = k; } while (i > 0) { i--; } }": ["lp"]}
+    "const int K2[2] = {1, 2};": ["K2"], "void lp() { for (k : int[0,1]) { i = k; } while (i > 0) { i--; } }": ["lp"],
+    "void rt() { if (i > 0) return; i = 1; }": ["rt"],
+    "int st(int v) { int t = 0; for (t = 0; t < v; t++) { ; } do { t--; } while (t > 0); if (t == 0) { t = 1; } else t = 2; assert(t > 0); { int u = t; t = u; } return t; }": ["st"]}
 
 
 def outside(doc, m, b):
